@@ -28,6 +28,80 @@ var guardFiles = map[string]bool{"reader/reader.go": true, "ipfix/decoder.go": t
 	"netflow/v5/decoder.go": true, "sflow/decoder.go": true, "sflow/flow_sample.go": true, "sflow/flow_counter.go": true,
 	"packet/packet.go": true, "packet/ethernet.go": true, "packet/network.go": true, "packet/transport.go": true, "packet/icmp.go": true}
 
+// nonfatalFiles: the three decoders that tell fatal from non-fatal errors by a type switch on `nonfatalError`.
+// Listed per file, in source order: the declaration of that type with its type expression (F4 / F29: as
+// `type nonfatalError error` the switch case matches EVERY error) and every place the identifier is used — a
+// construction `nonfatalError{…}` / `nonfatalError(…)` with its whole expression (these are the error classes the
+// models treat as non-fatal), a `case` of a type switch, or anything else, printed as `other` with the enclosing
+// node (which no reviewed inventory contains).
+var nonfatalFiles = []string{"ipfix/decoder.go", "netflow/v9/decoder.go", "netflow/v5/decoder.go"}
+
+func nonfatalFacts(repo, rel string) ([]string, error) {
+	fset, f, err := parseFile(repo, rel)
+	if err != nil {
+		return nil, err
+	}
+	var out []string
+	declared := false
+	for _, d := range f.Decls {
+		fname := "(package level)"
+		if fd, ok := d.(*ast.FuncDecl); ok {
+			fname = fd.Name.Name
+			if fd.Recv != nil && len(fd.Recv.List) == 1 {
+				t := fd.Recv.List[0].Type
+				if st, ok := t.(*ast.StarExpr); ok {
+					t = st.X
+				}
+				fname = src(fset, t) + "." + fname
+			}
+		}
+		var stack []ast.Node
+		ast.Inspect(d, func(n ast.Node) bool {
+			if n == nil {
+				stack = stack[:len(stack)-1]
+				return true
+			}
+			if id, ok := n.(*ast.Ident); ok && id.Name == "nonfatalError" && len(stack) > 0 {
+				switch par := stack[len(stack)-1].(type) {
+				case *ast.TypeSpec:
+					if par.Name == id {
+						declared = true
+						assign := ""
+						if par.Assign.IsValid() {
+							assign = "= "
+						}
+						out = append(out, fmt.Sprintf("%s type nonfatalError %s%s", rel, assign, src(fset, par.Type)))
+					} else {
+						out = append(out, fmt.Sprintf("%s %s: other %s", rel, fname, src(fset, par)))
+					}
+				case *ast.CompositeLit:
+					if par.Type == ast.Expr(id) {
+						out = append(out, fmt.Sprintf("%s %s: %s", rel, fname, src(fset, par)))
+					} else {
+						out = append(out, fmt.Sprintf("%s %s: other %s", rel, fname, src(fset, par)))
+					}
+				case *ast.CallExpr:
+					if par.Fun == ast.Expr(id) {
+						out = append(out, fmt.Sprintf("%s %s: %s", rel, fname, src(fset, par)))
+					} else {
+						out = append(out, fmt.Sprintf("%s %s: other %s", rel, fname, src(fset, par)))
+					}
+				case *ast.CaseClause:
+					out = append(out, fmt.Sprintf("%s %s: case nonfatalError", rel, fname))
+				default:
+					out = append(out, fmt.Sprintf("%s %s: other %s", rel, fname, src(fset, par)))
+				}
+			}
+			stack = append(stack, n)
+			return true
+		})
+	}
+	if !declared {
+		out = append([]string{rel + " type nonfatalError: not declared"}, out...)
+	}
+	return out, nil
+}
+
 func genSites(repo string) (genFile, error) {
 	var allocs, panics, guards []string
 	walk := func(rel string, wantAlloc, wantPanic bool) error {
@@ -183,6 +257,13 @@ func genSites(repo string) (genFile, error) {
 		emit(g.name, "every branch / loop condition, switch case and break / continue under "+g.prefix+" "+g.prefix2+" (decoder / dissector / reader sources), in source order; plain `err != nil` propagation excluded", l)
 	}
 	emit("panicSites", "every index, slice and single-result type-assertion expression of the files C01 is anchored in", panics)
+	for i, rel := range nonfatalFiles {
+		l, err := nonfatalFacts(repo, rel)
+		if err != nil {
+			return genFile{}, err
+		}
+		emit([]string{"nonfatalIpfix", "nonfatalV9", "nonfatalV5"}[i], "the declaration of `nonfatalError` in "+rel+" and every use of the identifier, in source order: the constructions are the error classes after which decoding goes on", l)
+	}
 	b.WriteString(footer("Sites"))
 	return genFile{"Sites", b.String()}, nil
 }
